@@ -16,26 +16,84 @@ func (check fieldConstraints) CheckFieldPreConstraints(r *FieldRequest, hnd *Val
 	if hnd.Val == nil {
 		return true, nil
 	}
+	if err := check.checkValue(hnd.Val, t); err != nil {
+		return false, err
+	}
+	return true, nil
+}
 
+func (check fieldConstraints) checkValue(v val.Value, t *meta.Type) error {
 	switch t.Format() {
-	case val.FmtString:
-		if err := check.checkString(hnd.Val.String(), t); err != nil {
-			return false, err
+	case val.FmtUnion, val.FmtUnionList:
+		// values are in the type of one of the members and have to pass the restrictions
+		// of a member of that type
+		var memberErr error
+		for _, member := range t.Union() {
+			if member.Format().Single() != v.Format().Single() {
+				continue
+			}
+			if memberErr = check.checkMember(v, member); memberErr == nil {
+				return nil
+			}
 		}
-	case val.FmtStringList:
+		if memberErr != nil {
+			return memberErr
+		}
+		return fmt.Errorf("'%s' is not a value of any member of the union", v)
+	case val.FmtEnum:
+		if e, isEnum := v.(val.Enum); isEnum {
+			if declared, found := t.Enum().ByLabel(e.Label); !found || declared.Id != e.Id {
+				return fmt.Errorf("'%s' is not one of the enums defined", e.Label)
+			}
+		}
+	case val.FmtEnumList:
+		if l, isEnumList := v.(val.EnumList); isEnumList {
+			for _, e := range l {
+				if declared, found := t.Enum().ByLabel(e.Label); !found || declared.Id != e.Id {
+					return fmt.Errorf("'%s' is not one of the enums defined", e.Label)
+				}
+			}
+		}
+	case val.FmtIdentityRef:
+		if id, isId := v.(val.IdentRef); isId {
+			if meta.FindIdentity(t.Base(), id.Label) == nil {
+				return fmt.Errorf("'%s' is not derived from the base identity", id.Label)
+			}
+		}
+	case val.FmtIdentityRefList:
+		if l, isIdList := v.(val.IdentRefList); isIdList {
+			for _, id := range l {
+				if meta.FindIdentity(t.Base(), id.Label) == nil {
+					return fmt.Errorf("'%s' is not derived from the base identity", id.Label)
+				}
+			}
+		}
+	}
+	return check.checkMember(v, t)
+}
+
+// checkMember checks string and number restrictions of a type that is not a union
+func (check fieldConstraints) checkMember(v val.Value, t *meta.Type) error {
+	hnd := &ValueHandle{Val: v}
+	switch {
+	case t.Format() == val.FmtString && v.Format() == val.FmtString:
+		if err := check.checkString(hnd.Val.String(), t); err != nil {
+			return err
+		}
+	case t.Format().Single() == val.FmtString && v.Format() == val.FmtStringList:
 		strs := hnd.Val.Value().([]string)
 		for _, s := range strs {
 			if err := check.checkString(s, t); err != nil {
-				return false, err
+				return err
 			}
 		}
 	}
 	if t.Format().IsNumeric() {
 		if err := check.checkRange(hnd.Val, t); err != nil {
-			return false, err
+			return err
 		}
 	}
-	return true, nil
+	return nil
 }
 
 func (check fieldConstraints) checkString(s string, t *meta.Type) error {
